@@ -100,6 +100,11 @@ CHECKS = {
         technique="explicit-state exploration of the idle real stack per configuration with a canonical state on ages and relative sequence numbers until the state graph closes (cycle), exhaustive frame-jitter sequences (2^10), every cut phase of a keep-alive period, every subset x order x before/after split of the client setters and orders of the ServerContext setters, with timing oracles on the virtual clock",
         text="38 (quick) / 45 idle configurations (5 keep-alive intervals x 2 timeouts x 5 frame lengths): 30 close into a cycle (proof of 'stays up indefinitely' under uniform dyadic frames), the 1/60 s rows are run to a 20/60 s horizon; 6144 jitter executions; 67 cut cases (server disconnect within one tick after the timeout, client DROPPED within one frame after 5 s); 12 unanswered-connect cases; 49 client-setter and 3/120 server-setter cases with observed effect.",
         note="'one send tick' read leniently (smallest multiple of the frame exceeding send_interval); relative-sequence hashing relies on C08; no network faults other than cuts"),
+    "C10": dict(
+        engine="mcx", category="model_checking", design="5/C10",
+        technique="deviation-bounded exploration (<=2 deviations from a menu of ~50 kinds at 10/36 tick positions) of the real server loop thread under a baton scheduler with two real clients, same-address reconnects, an authenticated malicious client, handler exceptions/re-entrant calls, shutdown and enumerated token-generator collisions; per-object lifecycle automaton as monitor",
+        text="5.1e4 (quick) executions of a two-client run with shutdown: connect once and only after the handshake (session key matched against the harness's client sessions), handle_message only while connected and only with that client's own tagged payloads, disconnect exactly once (peer disconnect, silence timeout, server-side disconnect, shutdown), nothing for never-connected objects, one thread id, shutdown is the single last event, probes still delivered after handler exceptions, tokens of connected clients pairwise distinct, server thread never dies.",
+        note="two addresses (+ reconnects); <=2 deviations; lock-protected queue hand-off between reactor and server thread treated as atomic (fake lock)"),
 }
 
 NOT_YET = {
